@@ -433,9 +433,9 @@ class Daun(Adapter):
         if k == 'call':
             c = op[1]
             rt, z = self.reg_parts(c['reg'])
-            return '(Call %d %d %s %d %s %s %d)' % (
+            return '(Call %d %d %s %d %s %s)' % (
                 c['n'], c['degree'], ['RNone', 'RDiff', 'RL2', 'RL2c', 'RNonneg'][rt], z,
-                cbool(c['direction'] == 'forward'), cbd(c['bd']), aux)
+                cbool(c['direction'] == 'forward'), cbd(c['bd']))
         if k == 'cleanup':
             return '(Cleanup %s)' % cbool(op[1] == 'all')
         if k == 'dircleanup':
@@ -449,7 +449,7 @@ class Daun(Adapter):
         raise ValueError(op)
 
     def pre(self, op):
-        return self.lastsz(op[1]) if op[0] == 'call' else 0
+        return 0
 
     def state(self):
         m = self.mod()
